@@ -1574,6 +1574,18 @@ def _run(c):
     c.log('lean build + audit done')
     out = {}
     n = (lambda q, t: q if quick else t)
+    # disagreements between model and code are held back until all streams ran: the specification oracles of the same
+    # stream may find a real failing input that explains them (then only that is reported)
+    deferred = []
+    emit_broken = c.broken_no_input
+    c.broken_no_input = lambda name, what, replay: deferred.append((name, what, replay))
+    emit_failing = c.failing_input
+    failing_streams = set()
+    def failing_input(signature, what, replay):
+        r = emit_failing(signature, what, replay)
+        if r: failing_streams.add(replay.get('stream'))
+        return r
+    c.failing_input = failing_input
     run_streams(c, [
         ('handlers', stream_handlers(c, SI, entries, n(40, 1500), out)),
         ('api', stream_api(c, SI, entries, n(6, 150), out)),
@@ -1592,6 +1604,16 @@ def _run(c):
     failed_kinds = {laws[f].split('|')[1] for f in failed if laws.get(f, 'none') != 'none'}
     for kind, replay in out['pending'].items():
         if kind in failed_kinds: c.count('handlers:mismatch-explained-by-failing-input')
-        else: c.broken_no_input('corr:handler:' + kind, 'handler and its model disagree, no failing input through the public API', replay)
+        else: emit_broken('corr:handler:' + kind, 'handler and its model disagree, no failing input through the public API', replay)
+    related = {'handlers': {'api'}, 'units': {'parse', 'format', 'construct', 'define'}, 'parse': {'units'}, 'format': {'parse', 'construct'}, 'construct': {'parse'},
+               'names': {'dim-algebra', 'dim-laws'}, 'dim-algebra': {'dim-laws', 'names'}, 'compositions': {'api', 'dim-algebra'}}
+    for name, what, replay in deferred:
+        st = replay.get('stream')
+        if st in failing_streams or related.get(st, set()) & failing_streams: c.count('disagreement-explained-by-failing-input')
+        else: emit_broken(name, what, replay)
+    c.broken_no_input = emit_broken
     for b in broken:
-        c.broken_no_input('proof', b, dict(detail=b))
+        # the Lean build over the regenerated tables broke: a failing input found by the streams above (they are driven by the
+        # specification `lawOf` / `siSpec`, not by the extracted table) explains it; otherwise report the broken obligation
+        if any(v[2] and not v[2].startswith('broken:') for v in c.violations): c.count('proof-break-explained-by-failing-input')
+        else: c.broken_no_input('proof', b, dict(detail=b))
